@@ -795,12 +795,25 @@ def _variant(E, fv, env, c):
                 return v
     if fv.qual == "odict.pop":
         want = bool(env.get("default"))
+        pick = None
         for v in E.reg.contracts[(fv.rel, fv.qual)]:
             va = v.params.get("default")
             has = isinstance(va, tuple) and len(va) == 2 and va[0] == "vararg" and len(va[1]) > 0
             if has == want and v.verify and isinstance(v.params.get("self"), Ty) and v.params["self"].name == "odict":
-                return v
+                pick = v          # the last matching variant (the one below, which also keeps `inv` on KeyError)
+        return pick
     return None
 
 
 REG.variant_hook = _variant
+
+
+# odict.pop without a default, third variant: as the first one, and the KeyError outcome also keeps the representation
+# invariant (nothing was changed, the ghost position map included); callers that go on after catching the KeyError
+# (modict.pop / poplist with a default) need it
+contract(F, "odict.pop", "C39", params=dict(P, key=K), requires=["inv(self)"], modifies=MODS,
+         ghost={"after": {"self._keys.remove(key)": OD._g_after_remove}},
+         ensures=["inv(self)", "key not in self", "old(key in self)", "same_vals_except(self, key)",
+                  "result == old(self[key])", "removed_at(self._keys, old_keys(self), old_pos(self, key))"],
+         raises={"KeyError": ["old(key not in self)", UNCHANGED, "inv(self)"]}, returns=RET["vt"],
+         note="called without a default; KeyError leaves inv(self) as well")
